@@ -62,7 +62,7 @@ def run(repo, res, tier):
             seen.add(fd.key())
             n_find += 1
             f_ = Finding(fd.kind, fd.module + ".py", fd.func, fd.node, fd.msg, getattr(fd.node, "lineno", None))
-            f_.sig = ",".join(re.findall(r"D\([^)]*\)", fd.msg))
+            f_.sig = ",".join(sorted(re.findall(r"D\([^)]*\)", fd.msg)))
             res.add(f_)
         if r["error"]:
             errors.append(f"{r['entry']}/{r.get('field', '-')}: {r['error']}")
